@@ -1,13 +1,14 @@
-import Clemens.Proofs.EvalBits
+import Clemens.Proofs.EvalConsts
 /-
-Lemma library for C15 (part 1): closed forms of the evaluation terms and explicit numeric
-bounds for each of them in terms of the popcounts of the twelve piece sets.
+Lemma library for C15 (part 1): closed forms of the evaluation terms and bounds for each of them in terms of the
+popcounts of the twelve piece sets.  Everything is symbolic in the tuning constants (`Proofs/EvalConsts.lean` defines
+the bounds as functions of them); the only numerical fact used here is the sign condition `phase_facts`.
 -/
 namespace Clemens
 
 /-! ### constants -/
 
-theorem maxGamePhase_eq : maxGamePhase = 24 := by decide
+/-- `INF` is the largest `int16` (not a tuning constant; the search proofs use the value) -/
 theorem INF_eq : INF = 32767 := by decide
 
 /-! ### piece square tables -/
@@ -26,76 +27,76 @@ theorem evalPst_eq (p : Pos) (e : EvalAcc) :
   simp only [pstSum, pstTerm, sumOver]
   congr 1 <;> omega
 
-/-- smallest / largest entry of the tables of piece type `t` (both colours, both phases) -/
-def pstLo (t : Nat) : Int := [-20, -50, -20, -5, -20, -50].getD t 0
-def pstHi (t : Nat) : Int := [50, 20, 10, 10, 5, 40].getD t 0
+/-- every entry of a table lies between the computed extrema of that table (for any tables) -/
+theorem pst_bounds (ph c t s : Nat) (hs : s < 64) : pstLo ph c t ≤ pst ph c t s ∧ pst ph c t s ≤ pstHi ph c t :=
+  ⟨minOver_le _ 64 s hs, le_maxOver _ 64 s hs⟩
 
-theorem pst_bounds : ∀ ph < 2, ∀ c < 2, ∀ t < 6, ∀ s < 64, pstLo t ≤ pst ph c t s ∧ pst ph c t s ≤ pstHi t := by
-  decide +kernel
-
-theorem pstTerm_bounds (ph t : Nat) (hph : ph < 2) (ht : t < 6) (p : Pos) :
-    pstLo t * pc (p.pieces 0 t) - pstHi t * pc (p.pieces 1 t) ≤ pstTerm ph t p ∧
-    pstTerm ph t p ≤ pstHi t * pc (p.pieces 0 t) - pstLo t * pc (p.pieces 1 t) := by
-  have a := le_sumOver (pst ph 0 t) (pstLo t) (p.pieces 0 t) (fun s hs => (pst_bounds ph hph 0 (by omega) t ht s hs).1)
-  have b := sumOver_le (pst ph 0 t) (pstHi t) (p.pieces 0 t) (fun s hs => (pst_bounds ph hph 0 (by omega) t ht s hs).2)
-  have c := le_sumOver (pst ph 1 t) (pstLo t) (p.pieces 1 t) (fun s hs => (pst_bounds ph hph 1 (by omega) t ht s hs).1)
-  have d := sumOver_le (pst ph 1 t) (pstHi t) (p.pieces 1 t) (fun s hs => (pst_bounds ph hph 1 (by omega) t ht s hs).2)
+theorem pstTerm_bounds (ph t : Nat) (p : Pos) :
+    pstLo ph 0 t * pc (p.pieces 0 t) - pstHi ph 1 t * pc (p.pieces 1 t) ≤ pstTerm ph t p ∧
+    pstTerm ph t p ≤ pstHi ph 0 t * pc (p.pieces 0 t) - pstLo ph 1 t * pc (p.pieces 1 t) := by
+  have a := le_sumOver (pst ph 0 t) (pstLo ph 0 t) (p.pieces 0 t) (fun s hs => (pst_bounds ph 0 t s hs).1)
+  have b := sumOver_le (pst ph 0 t) (pstHi ph 0 t) (p.pieces 0 t) (fun s hs => (pst_bounds ph 0 t s hs).2)
+  have c := le_sumOver (pst ph 1 t) (pstLo ph 1 t) (p.pieces 1 t) (fun s hs => (pst_bounds ph 1 t s hs).1)
+  have d := sumOver_le (pst ph 1 t) (pstHi ph 1 t) (p.pieces 1 t) (fun s hs => (pst_bounds ph 1 t s hs).2)
   unfold pstTerm; omega
 
-/-- the PST sum in terms of the twelve popcounts -/
-theorem pstSum_bounds (ph : Nat) (hph : ph < 2) (p : Pos) :
-    -20 * pc (p.pieces 0 0) - 50 * pc (p.pieces 0 1) - 20 * pc (p.pieces 0 2) - 5 * pc (p.pieces 0 3)
-      - 20 * pc (p.pieces 0 4) - 50 * pc (p.pieces 0 5)
-      - 50 * pc (p.pieces 1 0) - 20 * pc (p.pieces 1 1) - 10 * pc (p.pieces 1 2) - 10 * pc (p.pieces 1 3)
-      - 5 * pc (p.pieces 1 4) - 40 * pc (p.pieces 1 5) ≤ pstSum ph p ∧
-    pstSum ph p ≤
-      50 * pc (p.pieces 0 0) + 20 * pc (p.pieces 0 1) + 10 * pc (p.pieces 0 2) + 10 * pc (p.pieces 0 3)
-      + 5 * pc (p.pieces 0 4) + 40 * pc (p.pieces 0 5)
-      + 20 * pc (p.pieces 1 0) + 50 * pc (p.pieces 1 1) + 20 * pc (p.pieces 1 2) + 5 * pc (p.pieces 1 3)
-      + 20 * pc (p.pieces 1 4) + 50 * pc (p.pieces 1 5) := by
-  have h0 : -20 * pc (p.pieces 0 0) - 50 * pc (p.pieces 1 0) ≤ pstTerm ph 0 p ∧
-      pstTerm ph 0 p ≤ 50 * pc (p.pieces 0 0) - -20 * pc (p.pieces 1 0) := pstTerm_bounds ph 0 hph (by omega) p
-  have h1 : -50 * pc (p.pieces 0 1) - 20 * pc (p.pieces 1 1) ≤ pstTerm ph 1 p ∧
-      pstTerm ph 1 p ≤ 20 * pc (p.pieces 0 1) - -50 * pc (p.pieces 1 1) := pstTerm_bounds ph 1 hph (by omega) p
-  have h2 : -20 * pc (p.pieces 0 2) - 10 * pc (p.pieces 1 2) ≤ pstTerm ph 2 p ∧
-      pstTerm ph 2 p ≤ 10 * pc (p.pieces 0 2) - -20 * pc (p.pieces 1 2) := pstTerm_bounds ph 2 hph (by omega) p
-  have h3 : -5 * pc (p.pieces 0 3) - 10 * pc (p.pieces 1 3) ≤ pstTerm ph 3 p ∧
-      pstTerm ph 3 p ≤ 10 * pc (p.pieces 0 3) - -5 * pc (p.pieces 1 3) := pstTerm_bounds ph 3 hph (by omega) p
-  have h4 : -20 * pc (p.pieces 0 4) - 5 * pc (p.pieces 1 4) ≤ pstTerm ph 4 p ∧
-      pstTerm ph 4 p ≤ 5 * pc (p.pieces 0 4) - -20 * pc (p.pieces 1 4) := pstTerm_bounds ph 4 hph (by omega) p
-  have h5 : -50 * pc (p.pieces 0 5) - 40 * pc (p.pieces 1 5) ≤ pstTerm ph 5 p ∧
-      pstTerm ph 5 p ≤ 40 * pc (p.pieces 0 5) - -50 * pc (p.pieces 1 5) := pstTerm_bounds ph 5 hph (by omega) p
-  unfold pstSum; omega
-
-/-! ### pawn structure -/
+/-! ### pawn structure: isolated pawns -/
 
 def isoDiff (p : Pos) : Int := pc (isolanis (p.pieces 0 0)) - pc (isolanis (p.pieces 1 0))
-
-def pawnRanked (p : Pos) : Int :=
-  rankedPawnEval 3 (supportedPawns 0 (p.pieces 0 0)) (supportedPawns 1 (p.pieces 1 0)) +
-  rankedPawnEval 5 (passed 0 (p.pieces 0 0) (p.pieces 1 0)) (passed 1 (p.pieces 0 0) (p.pieces 1 0))
-
-theorem evalPawns_eq (p : Pos) (e : EvalAcc) :
-    evalPawns p e = { mid := e.mid + -20 * isoDiff p, end_ := e.end_ + -5 * isoDiff p,
-                      base := e.base + pawnRanked p } := by
-  have h1 : Gen.eval_isolanis.getD 0 0 = -20 := by decide
-  have h2 : Gen.eval_isolanis.getD 1 0 = -5 := by decide
-  have h3 : Gen.eval_supportedScalar.getD 0 0 = 3 := by decide
-  have h4 : Gen.eval_passedScalar.getD 0 0 = 5 := by decide
-  unfold evalPawns
-  simp only [h1, h2, h3, h4, isoDiff, pawnRanked, PAWN]
-  congr 1; omega
 
 theorem pc_isolanis_le (b : BB) : pc (isolanis b) ≤ pc b := by
   unfold isolanis
   exact Int.le_trans (pc_and_le_left _ _) (pc_and_le_left _ _)
 
-theorem isoDiff_bounds (p : Pos) : -pc (p.pieces 1 0) ≤ isoDiff p ∧ isoDiff p ≤ pc (p.pieces 0 0) := by
-  have a := pc_isolanis_le (p.pieces 0 0)
-  have b := pc_isolanis_le (p.pieces 1 0)
-  have c := pc_nonneg (isolanis (p.pieces 0 0))
-  have d := pc_nonneg (isolanis (p.pieces 1 0))
-  unfold isoDiff; omega
+/-- the phase scores after the piece square tables (`pstSum`) and after the isolated pawns, for legal material -/
+theorem phase_bounds_raw (ph : Nat) (p : Pos) (hw : legalRawOf p 0) (hb : legalRawOf p 1) :
+    (midLo ph ≤ pstSum ph p ∧ pstSum ph p ≤ midHi ph) ∧
+    (midLo ph ≤ pstSum ph p + isoW ph * isoDiff p ∧ pstSum ph p + isoW ph * isoDiff p ≤ midHi ph) := by
+  have t0 := pstTerm_bounds ph 0 p
+  have t1 := pstTerm_bounds ph 1 p
+  have t2 := pstTerm_bounds ph 2 p
+  have t3 := pstTerm_bounds ph 3 p
+  have t4 := pstTerm_bounds ph 4 p
+  have t5 := pstTerm_bounds ph 5 p
+  have iw0 := pc_nonneg (isolanis (p.pieces 0 0))
+  have iw1 := pc_isolanis_le (p.pieces 0 0)
+  have ib0 := pc_nonneg (isolanis (p.pieces 1 0))
+  have ib1 := pc_isolanis_le (p.pieces 1 0)
+  have a1 := mul_le_posPart (isoW ph) _ _ iw0 iw1
+  have a2 := neg_posPart_le_mul (isoW ph) _ _ iw0 iw1
+  have b1 := mul_le_posPart (isoW ph) _ _ ib0 ib1
+  have b2 := neg_posPart_le_mul (isoW ph) _ _ ib0 ib1
+  have n1 := posPart_mul_nonneg (isoW ph) _ (pc_nonneg (p.pieces 0 0))
+  have n2 := posPart_mul_nonneg (-isoW ph) _ (pc_nonneg (p.pieces 0 0))
+  have n3 := posPart_mul_nonneg (isoW ph) _ (pc_nonneg (p.pieces 1 0))
+  have n4 := posPart_mul_nonneg (-isoW ph) _ (pc_nonneg (p.pieces 1 0))
+  have s1 := sideSum_le p 0 hw (pstHi ph 0 0 + posPart (isoW ph)) (pstHi ph 0 1) (pstHi ph 0 2) (pstHi ph 0 3)
+    (pstHi ph 0 4) (pstHi ph 0 5)
+  have s2 := sideSum_le p 1 hb (-pstLo ph 1 0 + posPart (-isoW ph)) (-pstLo ph 1 1) (-pstLo ph 1 2) (-pstLo ph 1 3)
+    (-pstLo ph 1 4) (-pstLo ph 1 5)
+  have s3 := sideSum_le p 0 hw (-pstLo ph 0 0 + posPart (-isoW ph)) (-pstLo ph 0 1) (-pstLo ph 0 2) (-pstLo ph 0 3)
+    (-pstLo ph 0 4) (-pstLo ph 0 5)
+  have s4 := sideSum_le p 1 hb (pstHi ph 1 0 + posPart (isoW ph)) (pstHi ph 1 1) (pstHi ph 1 2) (pstHi ph 1 3)
+    (pstHi ph 1 4) (pstHi ph 1 5)
+  unfold sideSum at s1 s2 s3 s4
+  simp only [Int.add_mul, Int.neg_mul] at s1 s2 s3 s4
+  have e : isoW ph * isoDiff p
+      = isoW ph * pc (isolanis (p.pieces 0 0)) - isoW ph * pc (isolanis (p.pieces 1 0)) := by
+    unfold isoDiff; rw [Int.mul_sub]
+  unfold midHi midLo pstSum
+  rw [e]
+  omega
+
+theorem phase_bounds (ph : Nat) (hph : ph < 2) (p : Pos) (hw : legalRawOf p 0) (hb : legalRawOf p 1) :
+    absLe (pstSum ph p) midBound ∧ absLe (pstSum ph p + isoW ph * isoDiff p) midBound := by
+  have h := phase_bounds_raw ph p hw hb
+  have h0 : midHi 0 ≤ midBound ∧ -midLo 0 ≤ midBound ∧ midHi 1 ≤ midBound ∧ -midLo 1 ≤ midBound := by
+    unfold midBound; omega
+  have : ph = 0 ∨ ph = 1 := by omega
+  unfold absLe
+  rcases this with rfl | rfl <;> omega
+
+/-! ### pawn structure: supported and passed pawns -/
 
 theorem popcount_rankmask : ∀ i < 6, popcount (rankMask2 <<< (8 * i)) = 8 := by decide +kernel
 
@@ -105,11 +106,25 @@ theorem pc_and_rank (w : BB) (i : Nat) (hi : i < 6) :
   have h2 := popcount_rankmask i hi
   unfold pc; omega
 
-theorem rankedPawnEval_3_bounds (w b : BB) :
-    -504 ≤ rankedPawnEval 3 w b ∧ rankedPawnEval 3 w b ≤ 504 := by
+/-- the summand of `rankedPawnEval` for the rank with index `i`, without the scalar -/
+def rankTerm (i : Nat) (w b : BB) : Int :=
+  ((i + 1 : Nat) : Int) * pc (w &&& rankMask2 <<< (8 * i)) - ((7 - (i + 1) : Nat) : Int) * pc (b &&& rankMask2 <<< (8 * i))
+
+def rankSum (w b : BB) : Int :=
+  rankTerm 0 w b + rankTerm 1 w b + rankTerm 2 w b + rankTerm 3 w b + rankTerm 4 w b + rankTerm 5 w b
+
+/-- `rankedPawnEval` is linear in its scalar -/
+theorem rankedPawnEval_eq (s : Int) (w b : BB) : rankedPawnEval s w b = s * rankSum w b := by
   unfold rankedPawnEval
   rw [range6]
   simp only [List.foldl_cons, List.foldl_nil]
+  show 0 + s * rankTerm 0 w b + s * rankTerm 1 w b + s * rankTerm 2 w b + s * rankTerm 3 w b + s * rankTerm 4 w b
+    + s * rankTerm 5 w b = _
+  unfold rankSum
+  simp only [Int.mul_add]
+  omega
+
+theorem rankSum_bounds (w b : BB) : absLe (rankSum w b) rankSumMax := by
   have w0 := pc_and_rank w 0 (by omega)
   have w1 := pc_and_rank w 1 (by omega)
   have w2 := pc_and_rank w 2 (by omega)
@@ -122,81 +137,89 @@ theorem rankedPawnEval_3_bounds (w b : BB) :
   have b3 := pc_and_rank b 3 (by omega)
   have b4 := pc_and_rank b 4 (by omega)
   have b5 := pc_and_rank b 5 (by omega)
+  unfold absLe rankSum rankTerm rankSumMax
   omega
 
-theorem rankedPawnEval_5_bounds (w b : BB) :
-    -840 ≤ rankedPawnEval 5 w b ∧ rankedPawnEval 5 w b ≤ 840 := by
-  unfold rankedPawnEval
-  rw [range6]
-  simp only [List.foldl_cons, List.foldl_nil]
-  have w0 := pc_and_rank w 0 (by omega)
-  have w1 := pc_and_rank w 1 (by omega)
-  have w2 := pc_and_rank w 2 (by omega)
-  have w3 := pc_and_rank w 3 (by omega)
-  have w4 := pc_and_rank w 4 (by omega)
-  have w5 := pc_and_rank w 5 (by omega)
-  have b0 := pc_and_rank b 0 (by omega)
-  have b1 := pc_and_rank b 1 (by omega)
-  have b2 := pc_and_rank b 2 (by omega)
-  have b3 := pc_and_rank b 3 (by omega)
-  have b4 := pc_and_rank b 4 (by omega)
-  have b5 := pc_and_rank b 5 (by omega)
-  omega
+theorem rankedPawnEval_bounds (s : Int) (w b : BB) : absLe (rankedPawnEval s w b) (absI s * rankSumMax) := by
+  rw [rankedPawnEval_eq]
+  exact absLe_mul_left s _ _ (rankSum_bounds w b)
 
-theorem pawnRanked_bounds (p : Pos) : -1344 ≤ pawnRanked p ∧ pawnRanked p ≤ 1344 := by
-  have a := rankedPawnEval_3_bounds (supportedPawns 0 (p.pieces 0 0)) (supportedPawns 1 (p.pieces 1 0))
-  have b := rankedPawnEval_5_bounds (passed 0 (p.pieces 0 0) (p.pieces 1 0)) (passed 1 (p.pieces 0 0) (p.pieces 1 0))
-  unfold pawnRanked; omega
+def pawnRanked (p : Pos) : Int :=
+  rankedPawnEval supScalar (supportedPawns 0 (p.pieces 0 0)) (supportedPawns 1 (p.pieces 1 0)) +
+  rankedPawnEval pasScalar (passed 0 (p.pieces 0 0) (p.pieces 1 0)) (passed 1 (p.pieces 0 0) (p.pieces 1 0))
+
+theorem evalPawns_eq (p : Pos) (e : EvalAcc) :
+    evalPawns p e = { mid := e.mid + isoW 0 * isoDiff p, end_ := e.end_ + isoW 1 * isoDiff p,
+                      base := e.base + pawnRanked p } := by
+  unfold evalPawns
+  simp only [isoW, supScalar, pasScalar, isoDiff, pawnRanked, PAWN]
+  congr 1; omega
+
+theorem pawnRanked_bounds (p : Pos) : absLe (pawnRanked p) pawnBound := by
+  have a := rankedPawnEval_bounds supScalar (supportedPawns 0 (p.pieces 0 0)) (supportedPawns 1 (p.pieces 1 0))
+  have b := rankedPawnEval_bounds pasScalar (passed 0 (p.pieces 0 0) (p.pieces 1 0)) (passed 1 (p.pieces 0 0) (p.pieces 1 0))
+  unfold absLe at *
+  unfold pawnRanked pawnBound; omega
 
 /-! ### pairs -/
 
+/-- the bonus `c` for a pair, white minus black -/
+def pairD (c : Int) (nw nb : Nat) : Int := (if nw > 1 then c else 0) - (if nb > 1 then c else 0)
+
 def pairsTerm (p : Pos) : Int :=
-  (if popcount (p.pieces 0 2) > 1 then 30 else 0) - (if popcount (p.pieces 1 2) > 1 then 30 else 0)
-  - (if popcount (p.pieces 0 1) > 1 then 8 else 0) + (if popcount (p.pieces 1 1) > 1 then 8 else 0)
-  - (if popcount (p.pieces 0 3) > 1 then 16 else 0) + (if popcount (p.pieces 1 3) > 1 then 16 else 0)
+  pairD (pairW 2) (popcount (p.pieces 0 2)) (popcount (p.pieces 1 2))
+  + pairD (pairW 1) (popcount (p.pieces 0 1)) (popcount (p.pieces 1 1))
+  + pairD (pairW 0) (popcount (p.pieces 0 3)) (popcount (p.pieces 1 3))
 
 theorem evalPairs_eq (p : Pos) (e : EvalAcc) :
     evalPairs p e = { e with base := e.base + pairsTerm p } := by
-  have h1 : Gen.eval_pairs.getD 0 0 = -16 := by decide
-  have h2 : Gen.eval_pairs.getD 1 0 = -8 := by decide
-  have h3 : Gen.eval_pairs.getD 2 0 = 30 := by decide
   unfold evalPairs
-  simp only [h1, h2, h3, pairsTerm, BISHOP, KNIGHT, ROOK]
+  simp only [pairsTerm, pairD, pairW, BISHOP, KNIGHT, ROOK]
   congr 1
   omega
 
-theorem pairsTerm_bounds (p : Pos) : -54 ≤ pairsTerm p ∧ pairsTerm p ≤ 54 := by
-  unfold pairsTerm; omega
+theorem pairD_bounds (c : Int) (nw nb : Nat) : absLe (pairD c nw nb) (absI c) := by
+  unfold pairD absLe absI
+  split <;> split <;> omega
+
+theorem pairsTerm_bounds (p : Pos) : absLe (pairsTerm p) pairsBound := by
+  have a := pairD_bounds (pairW 2) (popcount (p.pieces 0 2)) (popcount (p.pieces 1 2))
+  have b := pairD_bounds (pairW 1) (popcount (p.pieces 0 1)) (popcount (p.pieces 1 1))
+  have c := pairD_bounds (pairW 0) (popcount (p.pieces 0 3)) (popcount (p.pieces 1 3))
+  unfold absLe at *
+  unfold pairsTerm pairsBound; omega
 
 /-! ### material -/
 
-def materialTerm (p : Pos) : Int :=
-  100 * (pc (p.pieces 0 0) - pc (p.pieces 1 0)) + 310 * (pc (p.pieces 0 1) - pc (p.pieces 1 1))
-  + 310 * (pc (p.pieces 0 2) - pc (p.pieces 1 2)) + 510 * (pc (p.pieces 0 3) - pc (p.pieces 1 3))
-  + 910 * (pc (p.pieces 0 4) - pc (p.pieces 1 4))
+/-- the material of colour `c` -/
+def matSide (p : Pos) (c : Nat) : Int :=
+  sideSum p c (pieceValue 0) (pieceValue 1) (pieceValue 2) (pieceValue 3) (pieceValue 4) (pieceValue 5)
+
+def materialTerm (p : Pos) : Int := matSide p 0 - matSide p 1
 
 theorem evalMaterial_eq (p : Pos) (e : EvalAcc) :
     evalMaterial p e = { e with base := e.base + materialTerm p } := by
-  have h0 : pieceValue 0 = 100 := by decide
-  have h1 : pieceValue 1 = 310 := by decide
-  have h2 : pieceValue 2 = 310 := by decide
-  have h3 : pieceValue 3 = 510 := by decide
-  have h4 : pieceValue 4 = 910 := by decide
-  have h5 : pieceValue 5 = 0 := by decide
   unfold evalMaterial
   rw [range6]
-  simp only [List.foldl_cons, List.foldl_nil, h0, h1, h2, h3, h4, h5, materialTerm]
+  simp only [List.foldl_cons, List.foldl_nil, Int.mul_sub, materialTerm, matSide, sideSum]
   congr 1
   omega
 
+theorem matSide_bounds (p : Pos) (c : Nat) (h : legalRawOf p c) : matLo ≤ matSide p c ∧ matSide p c ≤ matHi :=
+  ⟨le_sideSum p c h _ _ _ _ _ _, sideSum_le p c h _ _ _ _ _ _⟩
+
+theorem materialTerm_bounds (p : Pos) (hw : legalRawOf p 0) (hb : legalRawOf p 1) : absLe (materialTerm p) matBound := by
+  have a := matSide_bounds p 0 hw
+  have b := matSide_bounds p 1 hb
+  unfold absLe materialTerm matBound; omega
+
 /-! ### pawn adjustment -/
 
-def ka (n : Nat) : Int := Gen.eval_knightPawnAdjustment.getD n 0
-def ra (n : Nat) : Int := Gen.eval_rookPawnAdjustment.getD n 0
+/-- pawn adjustment of the knights and rooks of colour `c` -/
+def adjSide (p : Pos) (c : Nat) : Int :=
+  ka (popcount (p.pieces c 0)) * pc (p.pieces c 1) + ra (popcount (p.pieces c 0)) * pc (p.pieces c 3)
 
-def adjTerm (p : Pos) : Int :=
-  ka (popcount (p.pieces 0 0)) * pc (p.pieces 0 1) - ka (popcount (p.pieces 1 0)) * pc (p.pieces 1 1)
-  + ra (popcount (p.pieces 0 0)) * pc (p.pieces 0 3) - ra (popcount (p.pieces 1 0)) * pc (p.pieces 1 3)
+def adjTerm (p : Pos) : Int := adjSide p 0 - adjSide p 1
 
 theorem evalPawnAdjustment_eq (p : Pos) (e : EvalAcc)
     (hw : popcount (p.pieces 0 0) ≤ 8) (hb : popcount (p.pieces 1 0) ≤ 8) :
@@ -207,7 +230,7 @@ theorem evalPawnAdjustment_eq (p : Pos) (e : EvalAcc)
   dsimp only
   split
   · rename_i h; simp at h; omega
-  · simp only [adjTerm, ka, ra, PAWN, KNIGHT, ROOK]
+  · simp only [adjTerm, adjSide, ka, ra, PAWN, KNIGHT, ROOK]
     congr 2
     omega
 
@@ -221,38 +244,30 @@ theorem evalPawnAdjustment_none (p : Pos) (e : EvalAcc)
   · rfl
   · rename_i h2; simp at h2; omega
 
-theorem ka_bounds (n : Nat) : -20 ≤ ka n ∧ ka n ≤ 12 := by
-  by_cases h : n < 9
-  · have : ∀ n < 9, -20 ≤ ka n ∧ ka n ≤ 12 := by decide
-    exact this n h
-  · have : ka n = 0 := by
-      unfold ka; rw [List.getD_eq_getElem?_getD, List.getElem?_eq_none (by simp [Gen.eval_knightPawnAdjustment]; omega)]; rfl
-    omega
+/-- the adjustment table entries used with at most eight pawns lie between the computed extrema -/
+theorem ka_bounds (n : Nat) (h : n ≤ 8) : kaLo ≤ ka n ∧ ka n ≤ kaHi :=
+  ⟨minOver_le ka 9 n (by omega), le_maxOver ka 9 n (by omega)⟩
 
-theorem ra_bounds (n : Nat) : -9 ≤ ra n ∧ ra n ≤ 15 := by
-  by_cases h : n < 9
-  · have : ∀ n < 9, -9 ≤ ra n ∧ ra n ≤ 15 := by decide
-    exact this n h
-  · have : ra n = 0 := by
-      unfold ra; rw [List.getD_eq_getElem?_getD, List.getElem?_eq_none (by simp [Gen.eval_rookPawnAdjustment]; omega)]; rfl
-    omega
+theorem ra_bounds (n : Nat) (h : n ≤ 8) : raLo ≤ ra n ∧ ra n ≤ raHi :=
+  ⟨minOver_le ra 9 n (by omega), le_maxOver ra 9 n (by omega)⟩
 
-theorem mul_bounds (a x lo hi : Int) (hlo : lo ≤ a) (hhi : a ≤ hi) (hx : 0 ≤ x) :
-    lo * x ≤ a * x ∧ a * x ≤ hi * x :=
-  ⟨Int.mul_le_mul_of_nonneg_right hlo hx, Int.mul_le_mul_of_nonneg_right hhi hx⟩
+theorem adjSide_bounds (p : Pos) (c : Nat) (h : legalRawOf p c) : adjLo ≤ adjSide p c ∧ adjSide p c ≤ adjHi := by
+  have h8 : popcount (p.pieces c 0) ≤ 8 := h.2.1
+  have a := mul_bounds _ _ _ _ (ka_bounds _ h8).1 (ka_bounds _ h8).2 (pc_nonneg (p.pieces c 1))
+  have b := mul_bounds _ _ _ _ (ra_bounds _ h8).1 (ra_bounds _ h8).2 (pc_nonneg (p.pieces c 3))
+  have s1 := sideSum_le p c h 0 kaHi 0 raHi 0 0
+  have s2 := sideSum_le p c h 0 (-kaLo) 0 (-raLo) 0 0
+  unfold sideSum at s1 s2
+  simp only [Int.neg_mul] at s2
+  unfold adjSide adjLo adjHi
+  omega
 
-theorem adjTerm_bounds (p : Pos) :
-    -20 * pc (p.pieces 0 1) - 12 * pc (p.pieces 1 1) - 9 * pc (p.pieces 0 3) - 15 * pc (p.pieces 1 3) ≤ adjTerm p ∧
-    adjTerm p ≤ 12 * pc (p.pieces 0 1) + 20 * pc (p.pieces 1 1) + 15 * pc (p.pieces 0 3) + 9 * pc (p.pieces 1 3) := by
-  have a := mul_bounds _ _ _ _ (ka_bounds (popcount (p.pieces 0 0))).1 (ka_bounds _).2 (pc_nonneg (p.pieces 0 1))
-  have b := mul_bounds _ _ _ _ (ka_bounds (popcount (p.pieces 1 0))).1 (ka_bounds _).2 (pc_nonneg (p.pieces 1 1))
-  have c := mul_bounds _ _ _ _ (ra_bounds (popcount (p.pieces 0 0))).1 (ra_bounds _).2 (pc_nonneg (p.pieces 0 3))
-  have d := mul_bounds _ _ _ _ (ra_bounds (popcount (p.pieces 1 0))).1 (ra_bounds _).2 (pc_nonneg (p.pieces 1 3))
-  unfold adjTerm; omega
+theorem adjTerm_bounds (p : Pos) (hw : legalRawOf p 0) (hb : legalRawOf p 1) : absLe (adjTerm p) adjBound := by
+  have a := adjSide_bounds p 0 hw
+  have b := adjSide_bounds p 1 hb
+  unfold absLe adjTerm adjBound; omega
 
 /-! ### mobility -/
-
-def kav (t : Nat) : Int := Gen.eval_kingAttValue.getD t 0
 
 /-- contribution of the piece of type `t` on `s` -/
 def mobTerm (p : Pos) (we t s : Nat) : Int :=
@@ -282,13 +297,11 @@ theorem lsb_le (b : BB) : lsb b ≤ 64 := by
 
 theorem popcount_kingAttacks : ∀ s ≤ 64, popcount (kingAttacks s) ≤ 8 := by decide +kernel
 
-theorem kav_vals : kav 0 = 1 ∧ kav 1 = 2 ∧ kav 2 = 2 ∧ kav 3 = 3 ∧ kav 4 = 4 ∧ kav 5 = 1 := by decide
-
-/-- crude per-piece bound: at most 64 target squares, at most 8 of them next to the king -/
-theorem mobTerm_bounds (p : Pos) (we t s : Nat) (k : Int) (hk : kav t = k) (hk0 : 0 ≤ k) :
-    0 ≤ mobTerm p we t s ∧ mobTerm p we t s ≤ 64 + k * 8 := by
+/-- crude per-piece bound: at most 64 target squares, at most 8 of them next to the king; the king attack weight may have
+either sign -/
+theorem mobTerm_bounds (p : Pos) (we t s : Nat) :
+    -(posPart (-kav t) * 8) ≤ mobTerm p we t s ∧ mobTerm p we t s ≤ 64 + posPart (kav t) * 8 := by
   unfold mobTerm
-  rw [hk]
   generalize attacksOfType p we t s &&& ~~~(p.byColor we) = m
   have h1 := pc_nonneg m
   have h2 := pc_le_64 m
@@ -297,58 +310,68 @@ theorem mobTerm_bounds (p : Pos) (we t s : Nat) (k : Int) (hk : kav t = k) (hk0 
     have := popcount_and_le_right m (kingAttacks (lsb (p.pieces (switchColor we) 5)))
     have := popcount_kingAttacks _ (lsb_le (p.pieces (switchColor we) 5))
     unfold pc; omega
-  have h5 := mul_bounds k _ 0 k hk0 (Int.le_refl _) h3
-  have h6 : k * pc (m &&& kingAttacks (lsb (p.pieces (switchColor we) 5))) ≤ k * 8 :=
-    Int.mul_le_mul_of_nonneg_left h4 hk0
+  have h5 := mul_le_posPart (kav t) _ 8 h3 h4
+  have h6 := neg_posPart_le_mul (kav t) _ 8 h3 h4
   omega
 
-theorem mobSum_bounds (p : Pos) (we t : Nat) (k : Int) (hk : kav t = k) (hk0 : 0 ≤ k) (b : BB) :
-    0 ≤ sumOver (mobTerm p we t) b ∧ sumOver (mobTerm p we t) b ≤ (64 + k * 8) * pc b := by
-  have a := le_sumOver (mobTerm p we t) 0 b (fun s _ => (mobTerm_bounds p we t s k hk hk0).1)
-  have c := sumOver_le (mobTerm p we t) (64 + k * 8) b (fun s _ => (mobTerm_bounds p we t s k hk hk0).2)
-  omega
+theorem mobSum_bounds (p : Pos) (we t : Nat) (b : BB) :
+    -(posPart (-kav t) * 8 * pc b) ≤ sumOver (mobTerm p we t) b ∧
+    sumOver (mobTerm p we t) b ≤ (64 + posPart (kav t) * 8) * pc b := by
+  have a := le_sumOver (mobTerm p we t) (-(posPart (-kav t) * 8)) b (fun s _ => (mobTerm_bounds p we t s).1)
+  have c := sumOver_le (mobTerm p we t) (64 + posPart (kav t) * 8) b (fun s _ => (mobTerm_bounds p we t s).2)
+  rw [Int.neg_mul] at a
+  exact ⟨a, c⟩
 
-theorem mobilityByColor_bounds (p : Pos) (we : Nat) :
-    0 ≤ mobilityByColor p we ∧
-    mobilityByColor p we ≤ 64 + 72 * pc (p.pieces we 0) + 80 * pc (p.pieces we 1) + 80 * pc (p.pieces we 2)
-      + 88 * pc (p.pieces we 3) + 96 * pc (p.pieces we 4) + 72 * pc (p.pieces we 5) := by
-  obtain ⟨k0, k1, k2, k3, k4, k5⟩ := kav_vals
-  have h0 := mobSum_bounds p we 0 1 k0 (by omega) (p.pieces we 0)
-  have h1 := mobSum_bounds p we 1 2 k1 (by omega) (p.pieces we 1)
-  have h2 := mobSum_bounds p we 2 2 k2 (by omega) (p.pieces we 2)
-  have h3 := mobSum_bounds p we 3 3 k3 (by omega) (p.pieces we 3)
-  have h4 := mobSum_bounds p we 4 4 k4 (by omega) (p.pieces we 4)
-  have h5 := mobSum_bounds p we 5 1 k5 (by omega) (p.pieces we 5)
+theorem mobilityByColor_bounds (p : Pos) (we : Nat) (h : legalRawOf p we) :
+    mobLo ≤ mobilityByColor p we ∧ mobilityByColor p we ≤ mobHi := by
+  have h0 := mobSum_bounds p we 0 (p.pieces we 0)
+  have h1 := mobSum_bounds p we 1 (p.pieces we 1)
+  have h2 := mobSum_bounds p we 2 (p.pieces we 2)
+  have h3 := mobSum_bounds p we 3 (p.pieces we 3)
+  have h4 := mobSum_bounds p we 4 (p.pieces we 4)
+  have h5 := mobSum_bounds p we 5 (p.pieces we 5)
   have hp0 : 0 ≤ mobPawns p we := pc_nonneg _
   have hp1 : mobPawns p we ≤ 64 := pc_le_64 _
+  have s1 := sideSum_le p we h (64 + posPart (kav 0) * 8) (64 + posPart (kav 1) * 8) (64 + posPart (kav 2) * 8)
+    (64 + posPart (kav 3) * 8) (64 + posPart (kav 4) * 8) (64 + posPart (kav 5) * 8)
+  have s2 := sideSum_le p we h (posPart (-kav 0) * 8) (posPart (-kav 1) * 8) (posPart (-kav 2) * 8)
+    (posPart (-kav 3) * 8) (posPart (-kav 4) * 8) (posPart (-kav 5) * 8)
+  unfold sideSum at s1 s2
   rw [mobilityByColor_eq]
+  unfold mobLo mobHi
   omega
 
 /-! ### game phase -/
 
 def phaseRaw (p : Pos) : Int :=
-  pc (p.pieces 0 2) + pc (p.pieces 0 1) + 2 * pc (p.pieces 0 3) + 4 * pc (p.pieces 0 4)
-  + pc (p.pieces 1 2) + pc (p.pieces 1 1) + 2 * pc (p.pieces 1 3) + 4 * pc (p.pieces 1 4)
+  gpv 1 * pc (p.pieces 0 2) + gpv 0 * pc (p.pieces 0 1) + gpv 2 * pc (p.pieces 0 3) + gpv 3 * pc (p.pieces 0 4)
+  + gpv 1 * pc (p.pieces 1 2) + gpv 0 * pc (p.pieces 1 1) + gpv 2 * pc (p.pieces 1 3) + gpv 3 * pc (p.pieces 1 4)
 
-theorem gamePhase_eq (p : Pos) : gamePhase p = if phaseRaw p > 24 then 24 else phaseRaw p := by
-  have h0 : Gen.eval_gamePhaseValues.getD 0 0 = 1 := by decide
-  have h1 : Gen.eval_gamePhaseValues.getD 1 0 = 1 := by decide
-  have h2 : Gen.eval_gamePhaseValues.getD 2 0 = 2 := by decide
-  have h3 : Gen.eval_gamePhaseValues.getD 3 0 = 4 := by decide
+theorem gamePhase_eq (p : Pos) : gamePhase p = if phaseRaw p > maxGamePhase then maxGamePhase else phaseRaw p := by
   unfold gamePhase
-  simp only [List.foldl_cons, List.foldl_nil, h0, h1, h2, h3, maxGamePhase_eq, BISHOP, KNIGHT, ROOK, QUEEN]
-  have : (0 + 1 * pc (p.pieces 0 2) + 1 * pc (p.pieces 0 1) + 2 * pc (p.pieces 0 3) + 4 * pc (p.pieces 0 4)
-      + 1 * pc (p.pieces 1 2) + 1 * pc (p.pieces 1 1) + 2 * pc (p.pieces 1 3) + 4 * pc (p.pieces 1 4)) = phaseRaw p := by
-    unfold phaseRaw; omega
-  rw [this]
+  simp only [List.foldl_cons, List.foldl_nil, BISHOP, KNIGHT, ROOK, QUEEN]
+  have : (0 + Gen.eval_gamePhaseValues.getD 1 0 * pc (p.pieces 0 2) + Gen.eval_gamePhaseValues.getD 0 0 * pc (p.pieces 0 1)
+      + Gen.eval_gamePhaseValues.getD 2 0 * pc (p.pieces 0 3) + Gen.eval_gamePhaseValues.getD 3 0 * pc (p.pieces 0 4)
+      + Gen.eval_gamePhaseValues.getD 1 0 * pc (p.pieces 1 2) + Gen.eval_gamePhaseValues.getD 0 0 * pc (p.pieces 1 1)
+      + Gen.eval_gamePhaseValues.getD 2 0 * pc (p.pieces 1 3) + Gen.eval_gamePhaseValues.getD 3 0 * pc (p.pieces 1 4))
+      = phaseRaw p := by
+    unfold phaseRaw gpv; omega
+  simp only [this]
 
-theorem gamePhase_bounds (p : Pos) : 0 ≤ gamePhase p ∧ gamePhase p ≤ 24 := by
+/-- `0 ≤ gamePhase ≤ maxGamePhase` (uses the sign conditions `phase_facts`) -/
+theorem gamePhase_bounds (p : Pos) : 0 ≤ gamePhase p ∧ gamePhase p ≤ maxGamePhase := by
+  obtain ⟨g0, g1, g2, g3, gm⟩ := phase_facts
   rw [gamePhase_eq]
   have : 0 ≤ phaseRaw p := by
-    have := pc_nonneg (p.pieces 0 2); have := pc_nonneg (p.pieces 0 1); have := pc_nonneg (p.pieces 0 3)
-    have := pc_nonneg (p.pieces 0 4); have := pc_nonneg (p.pieces 1 2); have := pc_nonneg (p.pieces 1 1)
-    have := pc_nonneg (p.pieces 1 3); have := pc_nonneg (p.pieces 1 4)
+    have a1 := Int.mul_nonneg g1 (pc_nonneg (p.pieces 0 2))
+    have a2 := Int.mul_nonneg g0 (pc_nonneg (p.pieces 0 1))
+    have a3 := Int.mul_nonneg g2 (pc_nonneg (p.pieces 0 3))
+    have a4 := Int.mul_nonneg g3 (pc_nonneg (p.pieces 0 4))
+    have a5 := Int.mul_nonneg g1 (pc_nonneg (p.pieces 1 2))
+    have a6 := Int.mul_nonneg g0 (pc_nonneg (p.pieces 1 1))
+    have a7 := Int.mul_nonneg g2 (pc_nonneg (p.pieces 1 3))
+    have a8 := Int.mul_nonneg g3 (pc_nonneg (p.pieces 1 4))
     unfold phaseRaw; omega
-  omega
+  split <;> omega
 
 end Clemens
